@@ -28,7 +28,8 @@ CONSTANTS Secs,          \* section ids (naturals); section NewSec does not exis
           Vals,          \* value ids
           MaxOps,        \* number of command-line options
           RawKeyLookup,  \* BOOLEAN: has_option() compares raw spellings (unrepaired); FALSE: normalised
-          RawKeyDup      \* BOOLEAN: the strict reader detects duplicates on raw spellings only (unrepaired)
+          RawKeyDup,     \* BOOLEAN: the strict reader detects duplicates on raw spellings only (unrepaired)
+          RawKeyMerge    \* BOOLEAN: the command line merges options on their RAW (section, key) strings (unrepaired)
 
 NewSec == Max(Secs)        \* by convention the largest section id is absent from every base file
 
@@ -105,15 +106,15 @@ DupFiles == { << [s |-> 1, items |-> <<RawItem(1, 0, 1), RawItem(2, 0, 1), RawIt
 EditFiles == {BaseA, BaseB}
 
 OpInstances == {[kind |-> kd, s |-> s, k |-> k, ws |-> w, v |-> IF kd = "rem" THEN 0 ELSE v] : kd \in {"ovr", "rem", "add"}, s \in Secs, k \in Keys, w \in {0, 1}, v \in Vals}
-\* two identical --remove-item options are one option (excluded: by hand an item cannot be deleted twice)
+\* two --remove-item options for one item (under whatever spelling) are one option (excluded: by hand an item cannot be deleted twice)
 OpSeqs == {os \in UNION {[1..n -> OpInstances] : n \in 0..MaxOps} :
-             \A a, b \in 1..Len(os) : (a # b /\ os[a].kind = "rem" /\ os[b].kind = "rem") => <<os[a].s, os[a].k, os[a].ws>> # <<os[b].s, os[b].k, os[b].ws>>}
+             \A a, b \in 1..Len(os) : (a # b /\ os[a].kind = "rem" /\ os[b].kind = "rem") => <<os[a].s, os[a].k>> # <<os[b].s, os[b].k>>}
 
 -----------------------------------------------------------------------------
 (* (b) the implementation *)
 \* potable._make_config_parser: an OrderedDict keyed by the RAW (section, key) strings; a later option with the same
 \* raw key replaces the earlier one IN ITS PLACE; removals go into the same dictionary after the overrides
-RawKeyOf(o) == <<o.s, o.k, o.ws>>
+RawKeyOf(o) == IF RawKeyMerge THEN <<o.s, o.k, o.ws>> ELSE <<o.s, o.k, 0>>      \* repaired: options are merged on the normalised key
 MergeInto(lst, o) ==
   IF \E x \in 1..Len(lst) : RawKeyOf(lst[x]) = RawKeyOf(o)
   THEN [x \in 1..Len(lst) |-> IF RawKeyOf(lst[x]) = RawKeyOf(o) THEN o ELSE lst[x]]
